@@ -420,6 +420,8 @@ Inductive outcome : Type :=
 | OErr (st : stage) (e : ferr)
 | ODone (f : dframe).
 
+Definition is_rejected (o : outcome) : bool := match o with OErr _ _ => true | ODone _ => false end.
+
 (* [decompress]: the negotiated codec's decoder (lz4_flex / snap), None = decode error;
    [compression] = whether a codec was negotiated *)
 Section WithCodec.
